@@ -11,6 +11,8 @@ EXTRA = {  # further properties whose statement the change also breaks (run in a
     "C03-1": [], "C11-2": ["C01"], "C07-1": ["C08"],
     "C02-6": ["C08"], "C03-6": ["C09"], "C05-5": ["C03"], "C05-6": ["C09"], "C09-6": ["C10", "C08"], "C10-5": ["C07"], "C10-6": ["C05"],
     "C01-6": ["C11"], "C11-5": ["C01"], "C07-6": ["C02"], "C04-5": ["C10"], "C13-5": [], "C12-6": ["C08"],
+    "C01-7": ["C14"], "C02-8": ["C06"], "C05-7": ["C04"], "C05-8": ["C01"], "C06-8": ["C01", "C12"], "C07-7": ["C06"], "C08-7": ["C03", "C05"],
+    "C09-8": ["C06"], "C10-8": ["C04"], "C11-7": ["C01"], "C11-8": ["C07"], "C12-8": ["C05"], "C03-7": ["C12"], "C04-8": ["C02"],
     "C02-4": ["C06"], "C04-4": ["C07"], "C06-3": ["C03"], "C06-4": ["C01"], "C07-4": ["C02"], "C08-3": ["C12"],
     "C10-3": ["C08"], "C10-4": ["C06", "C07"], "C12-3": ["C08"], "C05-4": ["C03"], "C03-4": ["C06"],
 }
